@@ -42,6 +42,10 @@ CHECKS = {
         technique="Coq proof (bad path in any position => Fault with no mutating op; no piece program panics; loader total) + child-process runs (bad paths, no/unloadable torrents, degenerate torrents, CLI binary)",
         text="Partial: C16_bad_path_no_effect, C16_piece_never_panics, C16_load_total are theorems of the model; allocation failure is runtime (known finding K2). Bad paths of every kind in every position, runs without loadable torrents, degenerate loadable torrents and the CLI binary are exercised as child processes.",
         ref="DESIGN.md section 5 C16", note="Allocation failure and thread panics at join are runtime."),
+    "C05": dict(
+        technique="Coq proof (labelled transition system of the executor: 15-field invariant, conservation, exactly-once, deadlock freedom, strictly decreasing measure; concrete rebalancing relation proved a permutation / even) + deterministic-scheduler runs of the real executor",
+        text="C05_work_conserved, C05_exactly_once, C05_deadlock_free, C05_terminates hold for every thread count and every reachable state, i.e. every interleaving, with no fairness assumption (a measure decreases at every step); C05_balance_* prove the concrete balance a permutation that fills queues evenly. The real executor is driven through seeded schedules by the sync shim (every lock/try_lock/unlock/spawn/join/exit a scheduling point) and with real threads; each run is replayed against the model and checked for completion, exactly-once, mutual exclusion and identical trees.",
+        ref="DESIGN.md section 5 C05", note="std Mutex/thread semantics and the memory model are assumed; the shim assumes sequential consistency at scheduling points."),
     "C06": dict(
         technique="Coq proof (induction over the cursor loop, closed-form interval spec) + differential run of the extracted model against Pieces::from_torrent",
         text="Theorems C06_layout_multi / C06_layout_single / C06_hash_count and the partition theorems hold for all file-length vectors and piece lengths with u64 checks explicit; the model is tied to pieces.rs by an exhaustive small-vector and u64-boundary differential run with an independent interval oracle.",
